@@ -234,3 +234,93 @@ def r5(rr, repo):
                 rr.ob(f'the test {U(t)!r} (did the user mention {key}?) is evaluated before "present but empty" is turned into "absent" - afterwards an explicit empty switch looks like no switch and the filter is auto-chained / given an output anyway',
                       before, cmod, t, witness=f'test at line {t.lineno}, deletion at line {d.lineno}', key=f'presence-before-normalise|{key}')
     rr.floor('ordered (test, normalisation) pairs', n, 2, cmod, loop)
+
+
+@rule('C12.R6', 'every filter gets an id and generated ids cannot clash with each other: a filter without --id is named after its class when it is the only unnamed one of that class, otherwise class name + its '
+                '1-based position among them; names are assigned to exactly the filters that had none; the duplicate test runs after the assignment (C12.R1)')
+def r6(rr, repo):
+    cmod, pf = repo.find(f'{CLI}::parse_filters')
+    # the group table: setdefault(name, []).append(config) under `config.id is None`
+    grp = [c for c in q.calls_in(pf) if isinstance(c.func, ast.Attribute) and c.func.attr == 'append' and isinstance(c.func.value, ast.Call) and isinstance(c.func.value.func, ast.Attribute) and c.func.value.func.attr == 'setdefault']
+    if len(grp) != 1:
+        raise Unresolved(f'{CLI}: parse_filters: cannot identify the table of filters without an id ({len(grp)} candidates)')
+    g = grp[0]
+    table = U(g.func.value.func.value)
+    guards = [(U(t), pol) for t, pol in q.guards_of(g, stop=pf)]
+    cfg = U(g.args[0]) if g.args else ''
+    rr.ob('exactly the filters whose id is None are collected for naming', (f'{cfg}.id is None', True) in guards and len([x for x in guards if 'id' in x[0]]) == 1, cmod, g, witness=str(guards), key='unnamed-collected')
+    rr.ob('they are grouped by class name', len(g.func.value.args) == 2 and isinstance(g.func.value.args[1], ast.List) and not g.func.value.args[1].elts, cmod, g, witness=U(g.func.value)[:80], key='grouped-by-class')
+    loops = [n for n in walk_scope(pf) if isinstance(n, ast.For) and U(n.iter) == f'{table}.items()']
+    if len(loops) != 1 or not isinstance(loops[0].target, ast.Tuple):
+        raise Unresolved(f'{CLI}: parse_filters: cannot identify the naming loop over {table}')
+    lp = loops[0]
+    kname, vname = [U(e) for e in lp.target.elts]
+    ifs = [s for s in lp.body if isinstance(s, ast.If)]
+    ok1 = ok2 = False
+    if ifs:
+        t = ifs[0].test
+        single_first = isinstance(t, ast.Compare) and U(t.left) == f'len({vname})' and isinstance(t.ops[0], ast.Eq) and U(t.comparators[0]) == '1'
+        single, multi = (ifs[0].body, ifs[0].orelse) if single_first else ([], [])
+        for s in single:
+            if isinstance(s, ast.Assign) and U(s.targets[0]) == f'{vname}[0].id' and U(s.value) == kname:
+                ok1 = True
+        for s in multi:
+            if isinstance(s, ast.For) and isinstance(s.iter, ast.Call) and U(s.iter.func) == 'enumerate' and U(s.iter.args[0]) == vname and isinstance(s.target, ast.Tuple):
+                iname, cname = [U(e) for e in s.target.elts]
+                start = s.iter.args[1] if len(s.iter.args) > 1 else q.kwarg(s.iter, 'start')
+                for a in s.body:
+                    if isinstance(a, ast.Assign) and U(a.targets[0]) == f'{cname}.id' and isinstance(a.value, ast.JoinedStr):
+                        parts = [U(v.value) for v in a.value.values if isinstance(v, ast.FormattedValue)]
+                        lits = [v.value for v in a.value.values if isinstance(v, ast.Constant)]
+                        ok2 = parts == [kname, iname] and not lits and start is not None
+    id_stores = [a for a in ast.walk(lp) if isinstance(a, ast.Assign) and any(isinstance(t, ast.Attribute) and t.attr == 'id' for t in a.targets)]
+    for flag, text, key in ((ok1, 'the only unnamed filter of a class is named after the class', 'single-name'),
+                            (ok2, 'several unnamed filters of a class get class name + their own running number (distinct by construction)', 'multi-name')):
+        if flag:
+            rr.holds(text, cmod, lp, key=key)
+        elif len(id_stores) == 2 and ifs:
+            rr.violated(text + ' - the naming loop assigns something else', cmod, lp, witness=' ; '.join(U(a) for a in id_stores)[:160], key=key)
+        else:
+            rr.unresolved('the naming loop has a shape the rule does not know (' + key + ')', cmod, lp, witness=' ; '.join(U(a) for a in id_stores)[:160], key=key)
+    # no later store to an id
+    later = [n for n in ast.walk(pf) if isinstance(n, ast.Assign) and any(isinstance(t, ast.Attribute) and t.attr == 'id' for t in n.targets) and n.lineno > lp.end_lineno]
+    rr.ob('ids are final once assigned (nothing renames a filter after the duplicate test)', not later, cmod, later[0] if later else lp, key='id-final')
+
+
+@rule('C12.R7', "the address a consumer is given is the one the producer binds: a user-given 'tcp://*:P' / 'tcp://0.0.0.0:P' output becomes 'tcp://localhost:P' as a source (same port, default 5550 when none is "
+                "written, any other host kept), an ipc output is used as it is, and an automatically allocated output is bound and connected under the same port / the same ipc name")
+def r7(rr, repo):
+    cmod, pf = repo.find(f'{CLI}::parse_filters')
+    # 1. explicit outputs: the conversion statement  output = f'tcp://{"localhost" if addr[:1] in "*0" else addr}:{port}'
+    conv = [n for n in walk_scope(pf) if isinstance(n, ast.Assign) and isinstance(n.value, ast.JoinedStr) and U(n.value).startswith("f'tcp://{") and len([v for v in n.value.values if isinstance(v, ast.FormattedValue)]) == 2
+            and not any(U(t).endswith('.outputs') for t in n.targets) and 'max_port' not in U(n.value)]
+    rr.floor('bind-address to connect-address conversions', len(conv), 1, cmod, pf)
+    for n in conv:
+        fv = [v.value for v in n.value.values if isinstance(v, ast.FormattedValue)]
+        host, port = fv[0], fv[1] if len(fv) > 1 else None
+        okh = isinstance(host, ast.IfExp) and q.const_str(host.body) and host.body.value == 'localhost' and isinstance(host.orelse, ast.Name)
+        rr.ob("a wildcard bind host ('*', '0...') is replaced by localhost, any other host is kept", okh, cmod, n, witness=U(host)[:80], key='conv-host')
+        # port comes from the same split as the host
+        sp = [a for a in walk_scope(pf) if isinstance(a, ast.Assign) and isinstance(a.targets[0], ast.Tuple) and port is not None and U(port) in [U(e) for e in a.targets[0].elts] and 'rsplit' in U(a.value)]
+        okp = bool(sp) and "+ ['5550']" in U(sp[0].value) and "rsplit(':', 1)" in U(sp[0].value) and U(sp[0].value).endswith('[:2]')
+        rr.ob("the port is the text after the last ':' of the user's output, 5550 when none is written", okp, cmod, sp[0] if sp else n, witness=U(sp[0].value)[:100] if sp else '', key='conv-port')
+    # the default literal equals zeromq's default port (C12.R1 checks the scan's literal the same way)
+    # 2. allocated outputs: bind and connect addresses agree
+    allocs = [n for n in walk_scope(pf) if isinstance(n, ast.Assign) and any(U(t).endswith('.outputs') for t in n.targets) and isinstance(n.value, (ast.JoinedStr, ast.Name))]
+    n_ok = 0
+    for n in allocs:
+        _, lst, idx = __import__('ofverif.rules.zmq', fromlist=['stmt_list_containing']).stmt_list_containing(n)
+        sib = [s for s in lst if isinstance(s, ast.Assign)]
+        txt = ' ; '.join(U(s) for s in sib)
+        if isinstance(n.value, ast.JoinedStr) and U(n.value).startswith("f'tcp://*:"):
+            n_ok += 1
+            port = [U(v.value) for v in n.value.values if isinstance(v, ast.FormattedValue)]
+            src = [s for s in sib if s is not n and 'tcp://localhost:' in U(s.value)]
+            ok = bool(src) and port and any(port[0] in U(v.value) or (isinstance(v.value, ast.NamedExpr) and U(v.value.target) == port[0]) for s in src for v in ast.walk(s.value) if isinstance(v, ast.FormattedValue))
+            rr.ob('an allocated tcp output is bound on tcp://*:P and handed to the consumer as tcp://localhost:P with the same P', ok, cmod, n, witness=txt[:200], key='alloc-tcp-pair')
+        elif 'ipc://' in txt:
+            n_ok += 1
+            names = {U(s.value) for s in sib if 'ipc://' in U(s.value)} | {U(t) for s in sib for t in s.targets}
+            same = any(isinstance(s.value, ast.JoinedStr) and any(isinstance(t, ast.Name) and t.id == U(n.value) for t in s.targets) for s in sib) or U(n.value).startswith("f'ipc://")
+            rr.ob('an allocated ipc output and the source given to the consumer are the same ipc name (built from the producer id)', same and 'id_config.id' in txt, cmod, n, witness=txt[:200], key='alloc-ipc-pair')
+    rr.floor('allocated-output sites', n_ok, 2, cmod, pf)
